@@ -112,7 +112,7 @@ def build(config, tier):
                         e = "%ssi * a[%d] + %s" % ("-" if kk[0] == "-" else "", "xyz".index(kk[-1]), e)
                     ent.append(e)
             exp = embed(kind, ent)
-            body = mode + " let ang: %s = vk::any(); let a = sp::lat3(1); let axis = <%s>::from_array(sp::f%dx3(a)); let (s, c) = crate::uf::sin_cos_f%d(ang); let (si, ci) = (s as i16, c as i16);\n    let m = <%s>::from_axis_angle(axis, ang).to_cols_array();\n    check!(%s, \"Rodrigues formula exact\");" % (
+            body = mode + " let ang: %s = vk::any(); vk::assume(ang.is_finite()); let a = sp::lat3(1); let axis = <%s>::from_array(sp::f%dx3(a)); let (s, c) = crate::uf::sin_cos_f%d(ang); let (si, ci) = (s as i16, c as i16);\n    let m = <%s>::from_axis_angle(axis, ang).to_cols_array();\n    check!(%s, \"Rodrigues formula exact\");" % (
                 t, V3, w, w, T, " && ".join("sp::eqi%d(m[%d], %s)" % (w, i, e) for i, e in enumerate(exp)))
             obs.append(Ob("%s_%s_axis_angle" % (pre0, T.lower()), PROP, body, fn="%s::from_axis_angle" % T, kind="lemma", solver="cadical", stubs=["sse", "uf_sin_cos%d" % w], cls="lattice",
                           tier="quick" if q else "thorough",
@@ -134,11 +134,11 @@ def build(config, tier):
             prod = " * ".join("<%s>::from_rotation_%s(%s)" % (T, ax, ang) for (ax, ang) in seq)
             mode = "unsafe { crate::uf::SINCOS%d_MODE = crate::uf::LAT; crate::uf::SINCOS_PARITY = true; }" % w
             if "Quat" in T:
-                cmp_ = " && ".join("l[%d] == r[%d]" % (i, i) for i in range(4))
-                body = mode + " let a: %s = vk::any(); let b: %s = vk::any(); let c: %s = vk::any();\n    let l = <%s>::from_euler(EulerRot::%s, a, b, c).to_array(); let r = (%s).to_array();\n    check!(%s, \"from_euler == product of elemental rotations\");" % (t, t, t, T, o, prod, cmp_)
+                cmp_ = "((%s) || (%s))" % (" && ".join("__verif::leq%d(l[%d], r[%d])" % (w, i, i) for i in range(4)), " && ".join("__verif::leq%d(l[%d], -r[%d])" % (w, i, i) for i in range(4)))
+                body = mode + " let a: %s = vk::any(); let b: %s = vk::any(); let c: %s = vk::any();\n    let l = <%s>::from_euler(EulerRot::%s, a, b, c).to_array(); let r = (%s).to_array();\n    check!(%s, \"from_euler == +-(product of elemental rotations): q and -q are the same rotation\");" % (t, t, t, T, o, prod, cmp_)
             else:
                 nn = 9 if "3" in T else 16
-                cmp_ = " && ".join("l[%d] == r[%d]" % (i, i) for i in range(nn))
+                cmp_ = " && ".join("__verif::leq%d(l[%d], r[%d])" % (w, i, i) for i in range(nn))
                 body = mode + " let a: %s = vk::any(); let b: %s = vk::any(); let c: %s = vk::any();\n    let l = <%s>::from_euler(EulerRot::%s, a, b, c).to_cols_array(); let r = (%s).to_cols_array();\n    check!(%s, \"from_euler == product of elemental rotations\");" % (t, t, t, T, o, prod, cmp_)
             obs.append(Ob("%s_%s_euler_%s" % (pre0, T.lower(), o.lower()), PROP, body, fn="%s::from_euler(%s)" % (T, o), kind="lemma", solver="cadical",
                           stubs=["sse", "uf_sin_cos%d" % w], cls="lattice", tier=tr,
